@@ -29,16 +29,17 @@ MonAbiSlice(e) ==
     /\ e.len = e.nlo
     /\ e.start + e.len <= e.L
 
-(* the code's case analysis (conformance only): low 8 bytes, usize overflow checks *)
+(* the code's case analysis (conformance only): high 24 bytes must be zero, low 8 bytes, usize
+   overflow checks *)
 EnvConforms(e) ==
   /\ ~e.panic
   /\ e.op = "envelope" =>
        LET big == 2147483647        \* stand-in for "a low-8-byte value of 2^31 or more" (> any payload length)
            ow == [hi |-> e.ohi, lo |-> IF e.osm THEN e.olo ELSE big]
            nw == [hi |-> e.nhi, lo |-> IF e.nsm THEN e.nlo ELSE big]
-           r == IF ~e.oread THEN Fail
+           r == IF ~e.oread \/ ow.hi # 0 THEN Fail            \* high bytes rejected since the repair
                 ELSE IF ow.lo < HeadSize \/ ow.lo = big \/ ow.lo + WordSize > e.L THEN Fail
-                ELSE IF ~e.nread \/ nw.lo = big \/ ow.lo + WordSize + nw.lo > e.L THEN Fail
+                ELSE IF ~e.nread \/ nw.hi # 0 \/ nw.lo = big \/ ow.lo + WordSize + nw.lo > e.L THEN Fail
                 ELSE Slice(ow.lo + WordSize, nw.lo)
        IN e.ok = r.ok /\ (e.ok => e.start = r.start /\ e.len = r.len)
 
